@@ -73,7 +73,7 @@ Interpretation decisions (kept no stronger than the statement):
 Canaries are corruptions of HAND-MADE records (independent of the code under test; the uncorrupted
 ones must be accepted on every run).  Everything the library does is recorded as an outcome and judged.
 """
-import copy
+import contextlib
 import json
 import shutil
 import tempfile
@@ -670,11 +670,32 @@ def _cfg_kwargs(recipe):
 _FROM_CFG = dict(load_local=False, save_local=False, do_download=False, do_generate=True, gen_parallel=False, verbose=False)
 
 
+@contextlib.contextmanager
+def _as_main_process():
+    """lib.pmap runs the drivers in pool workers.  MazeDataset.generate looks at multiprocessing.current_process()._identity
+    to decide whether it runs inside one of ITS OWN generation workers and, if so, seeds numpy with cfg.seed + worker
+    number: inside a harness worker the mazes of a configuration (and whether a percolation configuration generates at all:
+    a one-cell component has no two distinct endpoints -> ValueError) would depend on which worker picked the job up, and a
+    replay (main process) would build other mazes than the run it replays.  While the library generates, the harness worker
+    therefore presents itself as what it is from the library's point of view: a process that is not a generation worker.
+    (Generation is C03's business; this only fixes WHICH datasets C17 looks at.)"""
+    import multiprocessing
+
+    p = multiprocessing.current_process()
+    old = p._identity
+    p._identity = ()
+    try:
+        yield
+    finally:
+        p._identity = old
+
+
 def _build_from_config(recipe, opts, tmp, flags=None):
     R = _rast()
     cfg = R.RasterizedMazeDatasetConfig(**_cfg_kwargs(recipe), remove_isolated_cells=opts[0], extend_pixels=opts[1], endpoints_as_open=opts[2])
     before = _canon(cfg.serialize())
-    ds = R.RasterizedMazeDataset.from_config_augmented(cfg, local_base_path=tmp, **_FROM_CFG)
+    with _as_main_process():
+        ds = R.RasterizedMazeDataset.from_config_augmented(cfg, local_base_path=tmp, **_FROM_CFG)
     if flags is not None:
         flags["argmod"] = _canon(cfg.serialize()) != before
     if ds.cfg is not cfg:  # the caller goes on to its next variant with the same config object (as make_numpy_collection does with grid_n)
@@ -686,7 +707,8 @@ def _build_cfgbase(recipe, opts, tmp, flags=None):
     """class F: the base went through filters (one / the same one twice in a row) and / or had its metadata collected"""
     from maze_dataset import MazeDataset, MazeDatasetConfig
 
-    base = MazeDataset.from_config(MazeDatasetConfig(**_cfg_kwargs(recipe)), local_base_path=tmp, **_FROM_CFG)
+    with _as_main_process():
+        base = MazeDataset.from_config(MazeDatasetConfig(**_cfg_kwargs(recipe)), local_base_path=tmp, **_FROM_CFG)
     for step in recipe["post"]:
         if step == "filter":
             base = base.filter_by.path_length(min_length=recipe.get("min_length", 1))
@@ -719,7 +741,8 @@ def _plain_generates(recipe, tmp):
     """C03's business: does the plain dataset of this configuration generate at all?"""
     from maze_dataset import MazeDataset, MazeDatasetConfig
 
-    res, _ = mz.outcome(lambda: MazeDataset.from_config(MazeDatasetConfig(**_cfg_kwargs(recipe)), local_base_path=tmp, **_FROM_CFG))
+    with _as_main_process():
+        res, _ = mz.outcome(lambda: MazeDataset.from_config(MazeDatasetConfig(**_cfg_kwargs(recipe)), local_base_path=tmp, **_FROM_CFG))
     return res == "ok"
 
 
